@@ -18,6 +18,12 @@ CHECKS = {
                   "Tie: exhaustive expression trees over a 12-term alphabet (depth 1 quick, 2 thorough) plus random trees to depth 8, at all five entry points, find and find_mut; oracle = independent Kleene evaluator in Rust.",
              note="B-factor/occupancy terms are compared on two-decimal values (the code compares with f64::EPSILON); reference tables AMINO_ACIDS/BACKBONE_NAMES are regenerated from the source.",
              technique="Lean 4 structural induction over expression trees and hierarchy lists + differential correspondence", ref="DESIGN §7 C12"),
+ 'C08': dict(text="Theorems: for every history of add-atom calls with valid identifiers on an empty residue/chain/model the result equals the declarative nested grouping of the normalised calls "
+                  "(keys in order of first appearance, each child built from exactly the calls carrying its key, in order); identifiers pairwise distinct at every level (also as a one-step invariant from any duplicate-free state, "
+                  "including Chain::add_atom's search from the back); the atoms under an identifier path are exactly the calls with that path in call order. Tie: all histories of length <= 4 over a 24-call alphabet with case/padding variants "
+                  "(thorough; 1% of length 4 in quick), random histories to length 400, refused identifiers (panic in both).",
+             note="Panics on invalid identifiers are the guard of the theorems (mapM normalise = some); state after a caught panic is not compared.",
+             technique="Lean 4 induction over histories (fold = declarative grouping) + differential correspondence", ref="DESIGN §7 C08"),
 }
 NOT_APPLICABLE = {}
 ALL = ['C%02d' % i for i in range(1, 19)]
